@@ -688,7 +688,10 @@ class CIMachine(FormatMachine):
             return out
         population = below(level) if rec else list(level)
         pop_objs = dict((id(s.pool[c]), c) for c in population)
+        include_self = bool(types) and "self" in types and at != "top"
         for v in res:
+            if include_self and v is container:
+                continue        # the pseudo-type 'self': the variant asked is part of the answer (nothing more is specified for it)
             if id(v) not in pop_objs:
                 raise Violation("C11", "C11.get_variants_population", "returned-foreign-variant", {"uid": v.uid, "kw": kw})
             mv = model["vars"][pop_objs[id(v)]]
